@@ -48,8 +48,81 @@ impl Drop for DtorAllocates {
     }
 }
 
+/// A thread-local whose destructor is registered *before* the thread's first allocator request (registering it allocates nothing
+/// through the global allocator), so it runs after everything the allocator stack itself keeps per thread has been torn down. Its
+/// destructor sends one request of each kind, and the reallocations in both directions.
+struct EarlyDtor(std::cell::Cell<u64>);
+
+impl Drop for EarlyDtor {
+    fn drop(&mut self) {
+        let s = self.0.get();
+        if s == 0 {
+            return;
+        }
+        allocs::IN_TLS_DTOR.with(|d| d.set(true));
+        unsafe {
+            let size = (s % 200) as usize + 1;
+            let l = Layout::from_size_align(size, 8).unwrap();
+            let p = alloc(l);
+            assert!(!p.is_null());
+            p.write_volatile(1);
+            let p = realloc(p, l, size * 3);
+            assert!(!p.is_null());
+            let l = Layout::from_size_align(size * 3, 8).unwrap();
+            let p = realloc(p, l, size);
+            assert!(!p.is_null());
+            dealloc(p, Layout::from_size_align(size, 8).unwrap());
+            let lz = Layout::from_size_align(size + 7, 16).unwrap();
+            let z = alloc_zeroed(lz);
+            assert!(!z.is_null());
+            assert_eq!(z.add(size + 6).read_volatile(), 0);
+            let z = realloc(z, lz, size + 7);
+            assert!(!z.is_null());
+            dealloc(z, lz);
+        }
+    }
+}
+
 thread_local! {
     static TLS: RefCell<Option<DtorAllocates>> = const { RefCell::new(None) };
+    static EARLY: EarlyDtor = const { EarlyDtor(std::cell::Cell::new(0)) };
+}
+
+// Threads that std did not start (a C library calling back into Rust): nothing has run on them before `raw_body`, so the
+// destructor armed in its first statement is certainly registered before the thread's first allocator request.
+extern "C" {
+    fn pthread_create(
+        thread: *mut usize,
+        attr: *const std::ffi::c_void,
+        start: extern "C" fn(*mut std::ffi::c_void) -> *mut std::ffi::c_void,
+        arg: *mut std::ffi::c_void,
+    ) -> i32;
+    fn pthread_join(thread: usize, ret: *mut *mut std::ffi::c_void) -> i32;
+}
+
+extern "C" fn raw_body(arg: *mut std::ffi::c_void) -> *mut std::ffi::c_void {
+    let s = arg as usize as u64;
+    EARLY.with(|e| e.0.set(s | 1));
+    let mut v: Vec<u64> = Vec::new();
+    for i in 0..(s % 40 + 3) {
+        v.push(i);
+    }
+    v.shrink_to_fit();
+    std::hint::black_box(&v);
+    drop(v);
+    std::ptr::null_mut()
+}
+
+fn raw_threads(n: usize, seed: u64) {
+    let mut ids = [0usize; 64];
+    let n = n.min(64);
+    for (i, id) in ids.iter_mut().enumerate().take(n) {
+        let rc = unsafe { pthread_create(id, std::ptr::null(), raw_body, (seed as usize).wrapping_add(i * 2) as *mut _) };
+        assert_eq!(rc, 0, "pthread_create failed");
+    }
+    for id in ids.iter().take(n) {
+        unsafe { pthread_join(*id, std::ptr::null_mut()) };
+    }
 }
 
 fn real_traffic(seed: u64, len: usize) -> Option<verif::TallyCopy> {
@@ -167,6 +240,10 @@ fn run_config(out: &mut dyn Write, line: &str) {
                 std::thread::Builder::new()
                     .name(format!("sw-{w}-{t}"))
                     .spawn(move || {
+                        // every other thread arms a destructor before it has sent a single request of its own
+                        if s % 2 == 0 {
+                            EARLY.with(|e| e.0.set(s | 1));
+                        }
                         // first allocator calls of this thread happened during start-up (name, spawn closure)
                         TLS.with(|slot| *slot.borrow_mut() = Some(DtorAllocates { keep: vec![s; (s % 7) as usize + 1] }));
                         let tally = real_traffic(s, len);
@@ -177,6 +254,9 @@ fn run_config(out: &mut dyn Write, line: &str) {
             .collect();
         for h in handles {
             tallies.push(h.join().unwrap());
+        }
+        if !cfg!(miri) {
+            raw_threads(threads / 4 + 1, seed.wrapping_add(w as u64 * 1000));
         }
     }
     evlog::log(evlog::RUN_END, 0, 0, 0);
